@@ -1,9 +1,14 @@
 package props
 
 import (
+	"encoding/json"
 	"fmt"
+	"math/big"
 	"math/rand"
+	"net"
+	"net/url"
 	"strings"
+	"time"
 
 	"verif/internal/mon"
 	"verif/internal/refsem"
@@ -214,8 +219,80 @@ func c03Run(c *mon.Ctx, idx int) {
 
 var c04Zoo = univ.Zoo()
 
+// c04Relations checks the pairwise relations of C04 for one selector /
+// literal on a native Go datum (no reference model involved).
+func c04Native(c *mon.Ctx, datum interface{}, sel string, lit string, label string) {
+	q := (&xgen.Renderer{Plain: true}).Quote(lit)
+	forms := map[string]string{
+		"eq": sel + " == " + q, "ne": sel + " != " + q, "not-eq": "not (" + sel + " == " + q + ")", "not-ne": "not (" + sel + " != " + q + ")",
+		"in": q + " in " + sel, "notin": q + " not in " + sel, "contains": sel + " contains " + q, "notcontains": sel + " not contains " + q, "not-in": "not (" + q + " in " + sel + ")",
+		"matches": sel + " matches " + q, "notmatches": sel + " not matches " + q, "not-matches": "not (" + sel + " matches " + q + ")", "not-notmatches": "not (" + sel + " not matches " + q + ")",
+		"empty": sel + " is empty", "notempty": sel + " is not empty", "not-empty": "not (" + sel + " is empty)",
+	}
+	out := map[string]string{}
+	for k, text := range forms {
+		ev, err, pan, _ := createEval(text)
+		if pan != "" || err != nil {
+			return
+		}
+		out[k] = evaluate(ev, datum).Class3()
+		c.Evals(1)
+	}
+	rel := func(name, a, b string, negated bool) {
+		want := out[a]
+		if negated {
+			want = notTable(out[a])
+		}
+		if out[a] != "P" && out[b] != "P" && out[b] != want {
+			c.Violation(fmt.Sprintf("C04 native %s %s=%s %s=%s data=%s", name, a, out[a], b, out[b], label), "operator pair is not complementary / equivalent on a native Go value",
+				map[string]any{"first": forms[a], "second": forms[b], "first_outcome": out[a], "second_outcome": out[b], "datum": label})
+		}
+	}
+	rel("negation-not-complement", "eq", "ne", true)
+	rel("not(positive)-differs-from-negative", "ne", "not-eq", false)
+	rel("not(negative)-differs-from-positive", "eq", "not-ne", false)
+	rel("negation-not-complement", "in", "notin", true)
+	rel("contains-differs-from-in", "in", "contains", false)
+	rel("not-contains-differs-from-not-in", "notin", "notcontains", false)
+	rel("not(positive)-differs-from-negative", "notin", "not-in", false)
+	rel("negation-not-complement", "matches", "notmatches", true)
+	rel("not(positive)-differs-from-negative", "notmatches", "not-matches", false)
+	rel("not(negative)-differs-from-positive", "matches", "not-notmatches", false)
+	rel("negation-not-complement", "empty", "notempty", true)
+	rel("not(positive)-differs-from-negative", "notempty", "not-empty", false)
+	c.Count("native_relation_sets")
+}
+
+func c04NativeData() map[string]interface{} {
+	t := time.Date(2024, 10, 3, 12, 0, 0, 0, time.UTC)
+	return map[string]interface{}{
+		"ip": net.IP{10, 0, 0, 1}, "ip6": net.ParseIP("::1"), "t": t, "pt": &t, "big": big.NewInt(5), "hw": net.HardwareAddr{1, 2, 3}, "dur": time.Second, "url": &url.URL{Scheme: "http", Host: "h"},
+		"raw": json.RawMessage(`{"a":1}`), "rat": big.NewRat(1, 2), "mask": net.IPMask{255, 0}, "err": fmt.Errorf("boom"), "ips": []net.IP{{10, 0, 0, 1}}, "ts": []time.Time{t},
+	}
+}
+
 func c04Run(c *mon.Ctx, idx int) {
 	r := c.RNG(idx)
+	if idx%40 == 0 {
+		// values of types with methods (TextMarshaler, Stringer, error, ...)
+		d := c04NativeData()
+		keys := []string{"ip", "ip6", "t", "pt", "big", "hw", "dur", "url", "raw", "rat", "mask", "err", "ips", "ts"}
+		k := keys[r.Intn(len(keys))]
+		c04Native(c, d, k, []string{`^10\.`, ".", "10.0.0.1", "5", "a", "2024", "", "1000000000", "^$"}[r.Intn(9)], k)
+	}
+	if idx%16 == 7 {
+		// float32 values next to a midpoint, literal a hair above / below it
+		lo, hi, below, above := float32Witness(r)
+		for _, v := range []float32{lo, hi} {
+			for _, lit := range []string{below, above} {
+				t := univ.TFloat32
+				d := univ.IfaceMap("f", univ.FloatOf(t, float64(v)), "l", univ.Slice(univ.SliceOf(t), univ.FloatOf(t, float64(v)))).Datum()
+				c04Native(c, d, "f", lit, "float32-midpoint")
+				c04Native(c, d, "l", lit, "float32-midpoint-list")
+			}
+		}
+		c.Count("float32_midpoint_cases")
+	}
 	node, opt := drawDatum(c, idx, r)
 	zooCase := idx%4 == 3
 	if zooCase {
@@ -324,7 +401,7 @@ func init() {
 		NumCases:    func(tier string) int { return tierN(tier, 6000, 300000) },
 		Run:         c04Run,
 		Required: func(tier string) []string {
-			l := []string{"contains_pairs", "zoo_cases"}
+			l := []string{"contains_pairs", "zoo_cases", "native_relation_sets", "float32_midpoint_cases"}
 			for _, op := range []string{"==", "in", "is empty", "matches"} {
 				l = append(l, "pair:"+op+"/T", "pair:"+op+"/F", "pair:"+op+"/E", "pair-absent:"+op)
 			}
